@@ -170,7 +170,7 @@ class PathEnumerator:
                 if c is not None and ev.type_of(v) is None:
                     ev.set_type(v, c)
             # a call on the right-hand side is also an effect worth recording (e.g. x = graph.add(...))
-            if isinstance(st.value, ast.Call) or any(isinstance(n, ast.Call) for n in ast.walk(st.value)):
+            if isinstance(st.value, ast.Call):
                 p.events.append(Event("effect", st, v))
             return [p]
         if isinstance(st, ast.AugAssign):
